@@ -8,8 +8,16 @@ slack after `end_`, any stale bits, borrowed or owned buffer, any reference coun
     bits h' (op h s args) = specOp (bits h s) args
 
 where `specOp` is the plain `List Bool` operation of Model/Bits.lean, and the operation does not panic.
+
+PROVED here (full strength): iter8, bits, seek, peek, substr, read, split_at, detach, eq_with,
+to_bytes, to_bytes_with_padding, bytestr, slice, to_hex_string; isolation ("operands and bystanders are
+never modified") for seek/peek/substr/read/split_at/clone/drop/detach.
+
+NOT YET PROVED (statements kept below in the comment block at the end of the file; validated by the
+correspondence and the implementation-side oracle only): append, insert, invert refinement and their
+isolation; from_hex_str / from_bin_str / BitvecBuilder against `parseHex` / `parseBin`.
 -/
-import XehModel.Proofs.BitstrHeap
+import XehModel.Proofs.BitstrOps
 
 namespace Xeh.C04
 open Xeh Xeh.Bits Xeh.Bitstr
@@ -107,6 +115,55 @@ theorem splitAt_refines (h : Heap) (s : Handle) (wf : WF h s) (k : Nat) (hk : s.
   · rw [bits_incRc, bits_incRc, bits_eq, bits_eq, slice_take _ _ _ _ hk]
   · rw [bits_incRc, bits_incRc, bits_eq, bits_eq, slice_drop]
 
+/-! ### detach: same bits whatever the ownership situation (unique: returned as is; empty: fresh; else packed copy) -/
+
+theorem detach_refines (h : Heap) (s : Handle) (wf : WF h s) :
+    ∃ h' s', detach h s = .ok (h', s') ∧ WF h' s' ∧ bits h' s' = bits h s :=
+  let ⟨h', s', h1, h2, h3, _⟩ := detach_spec h s wf
+  ⟨h', s', h1, h2, h3⟩
+
+/-- `detach` changes the bits of no existing handle (any handle into an already allocated buffer) -/
+theorem detach_isolation (h : Heap) (s : Handle) (wf : WF h s) (t : Handle) (ht : t.buf < h.next) :
+    ∃ h' s', detach h s = .ok (h', s') ∧ bits h' t = bits h t :=
+  let ⟨h', s', h1, _, _, h4⟩ := detach_spec h s wf
+  ⟨h', s', h1, h4 t ht⟩
+
+/-! ### equality: both the byte-slice fast path and the `iter8` path decide equality of the bit sequences -/
+
+theorem eqWith_refines (h : Heap) (a b : Handle) (wa : WF h a) (wb : WF h b) :
+    (h.view a).eqWith (h.view b) = .ok (decide (bits h a = bits h b)) :=
+  View.eqWith_spec _ _ wa.view wb.view
+
+/-! ### byte and hex export -/
+
+theorem toBytesWithPadding_refines (h : Heap) (s : Handle) (wf : WF h s) :
+    (h.view s).toBytesWithPadding = .ok (toBytesPad (bits h s)) :=
+  View.toBytesWithPadding_spec _ wf.view
+
+theorem toBytes_refines (h : Heap) (s : Handle) (wf : WF h s) :
+    (h.view s).toBytes = .ok (Bits.toBytes (bits h s)) :=
+  View.toBytes_spec _ wf.view
+
+theorem bytestr_refines (h : Heap) (s : Handle) (wf : WF h s) :
+    (h.view s).bytestr = .ok (Bits.toBytes (bits h s)) :=
+  View.bytestr_spec _ wf.view
+
+theorem toHexString_refines (h : Heap) (s : Handle) (wf : WF h s) :
+    (h.view s).toHexString = .ok (toHex (bits h s)) :=
+  View.toHexString_spec _ wf.view
+
+/-- `slice()` is the zero-copy accessor: by contract it answers only for byte-aligned byte-multiple
+    values; when it answers, the bytes spell exactly the bit sequence -/
+theorem slice_refines (h : Heap) (s : Handle) (wf : WF h s) (ha : s.start % 8 = 0)
+    (hl : (s.end_ - s.start) % 8 = 0) :
+    ∃ bs, (h.view s).slice = .ok (some bs) ∧ bits h s = ofBytes bs :=
+  let ⟨bs, h1, h2, _⟩ := View.slice_spec _ wf.view ha hl
+  ⟨bs, h1, h2⟩
+
+theorem slice_unaligned (h : Heap) (s : Handle) (hn : ¬(s.start % 8 = 0 ∧ (s.end_ - s.start) % 8 = 0)) :
+    (h.view s).slice = .ok none :=
+  View.slice_none _ hn
+
 /-- the range operations, `clone` and `drop` change the bits of no handle whatsoever (they only touch
     reference counts) — the "operands are never modified" half for these operations -/
 theorem range_ops_isolation (h : Heap) (s t : Handle) (a b : Nat) :
@@ -134,5 +191,34 @@ example : WF (fromVec Heap.empty [0xab, 0xcd, 0xef]).1 ⟨3, 16, 0⟩ := by
   intro b hb
   simp [fromVec, Heap.alloc, Heap.view, Heap.empty] at hb
   omega
+
+/-
+Statements not yet proved (full strength, kept visible; currently validated by Tie A + oracle only):
+
+theorem append_refines (h : Heap) (s t : Handle) (ws : WF h s) (wt : WF h t) (hne : s ≠ t as pool entries) :
+    ∃ h' r, append h s t = .ok (h', r) ∧ WF h' r ∧ bits h' r = bits h s ++ bits h t
+      -- for BOTH paths: byte-aligned fast path (extend_from_slice) and bitwise slow path, after
+      -- `truncate(upper_bound_index(end))` + masking of the slack bits of the last byte; unique owner
+      -- with slack after `end_` and stale bits included.
+
+theorem insert_refines (h : Heap) (s t : Handle) (k : Nat) (ws : WF h s) (wt : WF h t) (hk : s.start + k ≤ s.end_) :
+    ∃ h' r, insert h s k t = .ok (h', some r) ∧ WF h' r ∧
+      bits h' r = (bits h s).take k ++ bits h t ++ (bits h s).drop k
+
+theorem invert_refines (h : Heap) (s : Handle) (ws : WF h s) :
+    ∃ h' r, invert h s = .ok (h', r) ∧ WF h' r ∧ bits h' r = Bits.invert (bits h s)
+
+theorem handle_isolation (pool : List Handle) (h : Heap) (hp : PoolWF h pool)   -- rc b = #handles into b
+    (op ∈ {append, insert, invert}) (s ∈ pool consumed) (u ∈ pool, u ≠ s) :
+    bits h' u = bits h u
+      -- in-place mutation happens only when rc = 1, i.e. no other pool handle shares the buffer;
+      -- otherwise a fresh buffer (id = h.next) is written.
+
+theorem fromHexStr_refines (h : Heap) (cs : List Char) :
+    match fromHexStr h cs, parseHex cs with
+    | .ok (h', s), .ok l => bits h' s = l ∧ WF h' s
+    | .error p, .error q => p = q
+    | _, _ => False
+-/
 
 end Xeh.C04
